@@ -32,7 +32,7 @@ class P(Prop):
     assumptions = ["pysat is absent: harness/shims/pysat stands in (IDPool/CNF/DPLL); every SAT model is re-checked against "
                    "the clauses, every UNSAT answer by brute force when nv<=22",
                    "set-iteration order inside the patched run is the model's ordBy(seed) family"]
-    budget = {"quick": (200, 150), "thorough": (3000, 2500)}
+    budget = {"quick": (400, 300), "thorough": (3000, 2500)}
 
     def gen_case(self, cyclic_ok=True):
         rng = self.rng
